@@ -1,6 +1,6 @@
 import Evenio.Driver.Parse
 import Evenio.Model.Gates
-import Evenio.Model.Inv
+import Evenio.Model.InvPlus
 /-! Driver: reads histories on stdin (`=== id` starts a fresh world; `>`-lines and `#`-lines are ignored; every
     other line is one operation), prints each operation followed by the model's observation lines. -/
 open Evenio
@@ -33,7 +33,7 @@ partial def loop (h : IO.FS.Stream) (w : World) (debug snap : Bool) (dead : Bool
       let (w', lines) := step w op snap
       for l in lines do IO.println ("> " ++ l)
       if inv && !(line == "drop") then
-        let r := w'.invReport
+        let r := w'.invPlusReport
         IO.println (if r.isEmpty then "> inv ok" else "> inv FAIL:" ++ ",".intercalate r)
       -- after a UB marker the model state is meaningless: stop this history (a failed debug assertion unwinds like a panic)
       let dead' := lines.any fun l => l.startsWith "ub "
